@@ -21,7 +21,7 @@ def run(tier, seed, which="C03"):
     groups = []
 
     def add(gid, names, seqs, ty, orders, threads=2, pens=(-1, -1, -1), nontrivial=True):
-        members = [dict(names=[names[i] for i in o], seqs=[seqs[i] for i in o], type=ty, threads=threads, gpo=pens[0], gpe=pens[1], tgpe=pens[2]) for o in orders]
+        members = [dict(names=[names[i] for i in o], seqs=[seqs[i] for i in o], type=ty, threads=threads, gpo=pens[0], gpe=pens[1], tgpe=pens[2], dump_in=True) for o in orders]
         groups.append(dict(gid=gid, rel="columns", prop="C03", members=members, key="%s:%s:%d" % (gid, json.dumps(sorted(zip(names, seqs)))[:2000], ty), nontrivial=nontrivial))
 
     # all n! orders of tiny inputs (equal lengths so that names decide; prefix names; mixed case)
@@ -73,7 +73,7 @@ def run(tier, seed, which="C03"):
         orders.append(bylen)
         add("n%d" % n, names, seqs, 5, orders, threads=4)
     V.sample(dict(group="tiny0", names=tiny[0][0], seqs=tiny[0][1], orders="all 24 permutations"))
-    rel.run_groups(V, groups, wd, per_batch=3, timeout=600)
+    rel.run_groups(V, groups, wd, per_batch=3, timeout=600, pipeline=True)
     return V.finish(rule="groups = one named sequence set in several record orders (all n! for tiny inputs with length ties / prefix names / case-only name differences; "
                     "reversal, rotation, random, length-sorted with name-descending ties, name-sorted for generated families incl. all-equal lengths; 99/101/130+ sequences); "
                     "relation = same set of columns as sets of (name, residue index); distinct by sequence set and type",
